@@ -1,0 +1,63 @@
+//go:build verif
+
+// Contracts for the verification machinery under /verif (contract-based deductive
+// verification). This file is comment-only, is excluded from every normal build by the
+// "verif" build tag, and declares nothing. See /verif/DESIGN.md §4.
+
+package reflection
+
+// C12: the registries, named as deterministic predicates on type names
+//@ func IsValidFHIRPathElement(name) (res)
+//@   defines res == isElemS(name)
+//@   ensures name == "BackboneElement" || name == "string" || name == "integer" || name == "uri" || name == "code" || name == "markdown" || name == "id" ==> res
+//@   ensures name == "unsignedInt" || name == "positiveInt" || name == "url" || name == "canonical" || name == "uuid" || name == "oid" ==> res
+//@   ensures name == "boolean" || name == "decimal" || name == "date" || name == "dateTime" || name == "time" || name == "instant" || name == "base64Binary" ==> res
+//@   assigns nothing
+//
+//@ func isBaseType(name) (res)
+//@   ensures res == (name == "Element" || name == "Resource" || name == "DomainResource")
+//@   assigns nothing
+//
+// the direct supertype, as the R4 hierarchy of the statement gives it. (KNOWN FINDING on the
+// pinned tree unless repaired: a nested backbone component - any name that is neither a
+// datatype nor a resource - must be a BackboneElement, not a DomainResource.)
+//@ func (ts TypeSpecifier) parent() (res)
+//@   requires ts.namespace == "FHIR" || ts.namespace == "System"
+//@   ensures res == parentS(ts)
+//@   assigns nothing
+//
+// `t is u`: same namespace, and t is u or derives from u
+//@ func (ts TypeSpecifier) Is(input) (res)
+//@   requires ts.namespace == "FHIR" || ts.namespace == "System"
+//@   ensures res == isaS(ts, input)
+//@   decreases rankS(ts)
+//@   assigns nothing
+//
+// name resolution: FHIR first, then System, case-sensitively; unknown names are errors
+//@ func NewTypeSpecifier(typeName) (res, err)
+//@   let fhirName = isElemS(typeName) || isResS(typeName) || typeName == "Element" || typeName == "Resource" || typeName == "DomainResource"
+//@   ensures fhirName ==> err == nil && res.namespace == "FHIR" && res.typeName == typeName
+//@   ensures !fhirName && isSysS(typeName) ==> err == nil && res.namespace == "System" && res.typeName == typeName
+//@   ensures !fhirName && !isSysS(typeName) ==> err != nil
+//@   assigns nothing
+//
+//@ func NewQualifiedTypeSpecifier(namespace, typeName) (res, err)
+//@   let fhirName = isElemS(typeName) || isResS(typeName) || typeName == "Element" || typeName == "Resource" || typeName == "DomainResource"
+//@   ensures namespace == "FHIR" && fhirName ==> err == nil && res.namespace == "FHIR" && res.typeName == typeName
+//@   ensures namespace == "FHIR" && !fhirName ==> err != nil
+//@   ensures namespace == "System" && isSysS(typeName) ==> err == nil && res.namespace == "System" && res.typeName == typeName
+//@   ensures namespace == "System" && !isSysS(typeName) ==> err != nil
+//@   ensures namespace != "FHIR" && namespace != "System" ==> err != nil
+//@   assigns nothing
+//
+// the type of a value: the System type of a System value; the FHIR type of an element or
+// resource, looking through a choice wrapper
+//@ func TypeOf(input) (res, err)
+//@   requires input == nil || validItem(input)
+//@   defines (err == nil) == typeOfOk(input)
+//@   defines err == nil ==> res == typeOfS(input)
+//@   ensures implements(input, system.Any) ==> err == nil && res.namespace == "System" && res.typeName == sysNameS(input)
+//@   ensures !implements(input, system.Any) && !implements(input, fhir.Base) ==> err != nil
+//@   ensures !implements(input, system.Any) && implements(input, fhir.Base) ==> err == nil && res.namespace == "FHIR"
+//@   ensures err == nil ==> res.namespace == "FHIR" || res.namespace == "System"
+//@   assigns nothing
